@@ -182,7 +182,16 @@ def F27():  # C17 two string models in a global repository collide on anonymous0
     m2 = mm.model_from_str("thing b"); prov.add_model(m2)
     try: mm.model_from_str("ref a"); return False
     except TextXError: return True
-ALL = [F1, F2, F3, F4, F5, F6, F7, F8, F9, F10, F11, F12, F13, F14, F15_16, F18, F19, F20, F21, F22, F23, F24, F26, F27]
+def F28():  # C07 falsy user-class object is not found by PlainName(multi_metamodel_support=False)
+    from textx.scoping.providers import PlainName
+    class Leaf:
+        def __init__(self, parent=None, name=None, items=None): self.parent = parent; self.name = name; self.items = items or []
+        def __len__(self): return len(self.items)
+    g = "Model: things+=Thing refs+=Ref; Thing: Leaf | Other; Leaf: 'leaf' name=ID items*=INT; Other: 'other' name=ID; Ref: 'ref' t=[Thing];"
+    mm = metamodel_from_str(g, classes=[Leaf]); mm.register_scope_providers({"*.*": PlainName(multi_metamodel_support=False)})
+    try: mm.model_from_str("leaf a other b ref a"); return False
+    except TextXError: return True
+ALL = [F28, F1, F2, F3, F4, F5, F6, F7, F8, F9, F10, F11, F12, F13, F14, F15_16, F18, F19, F20, F21, F22, F23, F24, F26, F27]
 if __name__ == "__main__":
     sel = sys.argv[1:]
     for w in ALL:
